@@ -40,11 +40,11 @@ Theorem C19_roundtrip_characterised : forall (V : Type) (uniq : list Z -> list Z
 Proof. exact roundtrip_iff. Qed.
 Print Assumptions C19_roundtrip_characterised.
 
-(* the pinned tree: a default grid (all domain indices 0) does not come back *)
+(* the current source: a default grid (all domain indices 0) does not come back (recorded finding) *)
 Theorem C19_roundtrip_zero_refuted :
   exists g : grid unit, wf_grid unit g = true /\
-    gd (import_grid unit pinned (export_grid unit (fun l => nodup Z.eq_dec l) pinned true g)) <> gd g.
-Proof. exact roundtrip_zero_refuted_pinned. Qed.
+    gd (import_grid unit cur (export_grid unit (fun l => nodup Z.eq_dec l) cur true g)) <> gd g.
+Proof. exact roundtrip_zero_refuted_cur. Qed.
 Print Assumptions C19_roundtrip_zero_refuted.
 
 (* uint32 -> int32 -> uint32 casts of the indices are the identity *)
@@ -92,6 +92,7 @@ Theorem C19_complex_element_wrapped : forall (X : Type) (x0 : X) (xadd : X -> X 
 Proof. exact element_complex_wrapped. Qed.
 Print Assumptions C19_complex_element_wrapped.
 
+(* why the wrapping is needed (the pinned tree f71eeee left these two arrays unwrapped) *)
 Theorem C19_complex_element_unwrapped_rejected : forall (X : Type) (x0 : X) (xadd : X -> X -> X)
   (xre xim xabs2 xsqrt xlog : X -> X) (call : list (list X) -> list (list X)) (call_cplx : bool)
   v m cplx vals c n npts k1 k2,
@@ -101,11 +102,14 @@ Theorem C19_complex_element_unwrapped_rejected : forall (X : Type) (x0 : X) (xad
 Proof. exact element_complex_unwrapped. Qed.
 Print Assumptions C19_complex_element_unwrapped_rejected.
 
-(* the pinned tree: a complex grid function cannot be exported with data_type='element' *)
-Theorem C19_complex_element_refuted :
-  exists (vals : list (list Z)) (n : nat),
-    rect Z vals 1 n = true /\
-    export_data Z 0 Z.add (fun x => x) (fun x => x) (fun x => x) (fun x => x) (fun x => x) (fun a => a) true
-                pinned Element true TId vals n 3 n = None.
-Proof. exact complex_element_refuted_pinned. Qed.
-Print Assumptions C19_complex_element_refuted.
+(* the current source: complex element data are exported as two arrays (real, imaginary parts), each wrapped into the
+   single cell block *)
+Theorem C19_complex_element : forall (X : Type) (x0 : X) (xadd : X -> X -> X) (xre xim xabs2 xsqrt xlog : X -> X)
+  (call : list (list X) -> list (list X)) (call_cplx : bool) m cplx vals c n npts,
+  m <> TCall -> rect X vals c n = true -> (1 <= c)%nat -> out_complex call_cplx m cplx = true ->
+  exists k1 k2, k1 <> k2 /\
+    export_data X x0 xadd xre xim xabs2 xsqrt xlog call call_cplx cur Element cplx m vals n npts n =
+      Some [(k1, map (map xre) (transpose X x0 n (transform X x0 xadd xre xim xabs2 xsqrt xlog call m vals n)));
+            (k2, map (map xim) (transpose X x0 n (transform X x0 xadd xre xim xabs2 xsqrt xlog call m vals n)))].
+Proof. exact cur_complex_element. Qed.
+Print Assumptions C19_complex_element.
